@@ -102,6 +102,8 @@ impl SharedHistory {
             // before mark_update_done could match the old creation time
             // while the new data set is already being served.
             let now = Utc::now();
+            #[cfg(routinator_verif)]
+            let now = crate::verif::now_override().unwrap_or(now);
             history.advance_created(now);
         }
         // Update the snapshot. The refresh time and object information may
